@@ -923,6 +923,11 @@ def part_c(facts, res):
                 if r_[0] == "call" and r_[1].split("::")[-1] in ("new", "with_capacity", "default") and r_[2] in gg.loops().get(max(gg.loops(), key=lambda h: len(gg.loops()[h])), ()):
                     resets.add(r_[2])      # the buffer is created afresh inside the loop
             stale = gg.reaches(i_r, i_r, avoid=resets)
+            # a function of the crate that is handed the buffer may reset it: then the path rule cannot tell
+            helpers_ = [p for i, p, t in cl if p in facts.bodies and any(set(gg.roots(a_)) & buf for a_ in t["args"])]
+            if stale and helpers_:
+                res.errors.append("receive worker: the line buffer is passed to %s, which may reset it: not decidable" % helpers_[0].split("::")[-1])
+                stale = False
             res.ob(not stale)
             if stale:
                 res.finding("plumbing|receive-worker|stale-buffer", "the receive worker can read the next line without resetting its line buffer on some path (read_line appends): "
